@@ -950,3 +950,9 @@ Proof.
   destruct (Z.leb_spec (-2147483648) v); [|lia]. destruct (Z.leb_spec v 2147483647); [|lia]. cbn [andb].
   destruct (Z.ltb_spec 0 v); [|lia]. reflexivity.
 Qed.
+
+(* ------------------------------------------------------------------ H. null vs empty *)
+Lemma result_not_null toks b : toks <> [] -> result_is_null toks b = false.
+Proof. destruct toks; [contradiction|reflexivity]. Qed.
+Lemma result_null_no_token b : result_is_null [] b = b.
+Proof. reflexivity. Qed.
